@@ -39,7 +39,8 @@ DETACH = {
     ('AttackGraph', 'nodes'): ([('parents', 'AttackGraphNode'), ('children', 'AttackGraphNode'),
                                 ('compromised_by|reached_attack_steps', 'Attacker'),
                                 ('entry_points@attackers', 'Attacker')], ('C09', 'C13', 'C10')),
-    ('AttackGraph', 'attackers'): ([('compromised_by', 'AttackGraphNode')], ('C09', 'C11')),
+    # the nodes that list an attacker are exactly its reached steps (P2): the clean-up ranges over THAT list
+    ('AttackGraph', 'attackers'): ([('compromised_by@reached_attack_steps', 'AttackGraphNode')], ('C09', 'C11', 'C13')),
     ('Model', 'assets'): ([(DYN, ''), ('entry_points', 'AttackerAttachment')], ('C05', 'C02', 'C07', 'C01')),
     ('Model', 'associations'): ([('associations', 'pjs')], ('C05',)),
 }
@@ -209,9 +210,40 @@ def _delegations(ctx) -> list[Inst]:
     return out
 
 
+def _attach_additive(ctx) -> list[Inst]:
+    """ATTACH  AttackGraph.attach_attackers makes ONE graph attacker per model attacker: inside its loop over the model's
+    attackers nothing removes a graph attacker (two model attackers may share a name; the one made for the first must
+    still be there after the second is handled)."""
+    fname = 'AttackGraph.attach_attackers'
+    if not ctx.prog.has_func(fname):
+        return []
+    f = ctx.prog.func(fname)
+    rel = f.module.relpath
+    construct = 'ATTACH: no graph attacker is removed while the model attackers are being attached'
+    out = []
+    loops = [lp for lp in own_nodes(f.node) if isinstance(lp, ast.For) and 'attackers' in stmt_text(lp.iter, 100)
+             and 'model' in stmt_text(lp.iter, 100)]
+    for lp in loops:
+        for n in ast.walk(lp):
+            if isinstance(n, ast.Call) and isinstance(n.func, ast.Attribute) and (
+                    n.func.attr == 'remove_attacker' or
+                    (n.func.attr in ('remove', 'pop', 'clear') and isinstance(n.func.value, ast.Attribute)
+                     and n.func.value.attr == 'attackers' and isinstance(n.func.value.value, ast.Name)
+                     and n.func.value.value.id == f.self_name)):
+                out.append(Inst(
+                    RULE, f.short, construct, 'violation',
+                    msg=(f"'{stmt_text(n, 60)}' removes graph attackers inside the loop over the model's attackers: an "
+                         f"attacker created for an earlier model attacker (same name, say) is taken out again - fewer "
+                         f"graph attackers than model attackers, their entry points compromised by nobody"),
+                    file=rel, line=n.lineno, props=('C11', 'C09')))
+    if loops and not out:
+        out.append(Inst(RULE, f.short, construct, 'ok', file=rel, line=loops[0].lineno, props=('C11', 'C09')))
+    return out
+
+
 def run(ctx) -> list[Inst]:
     prog, an = ctx.prog, ctx.an
-    insts: list[Inst] = _delegations(ctx)
+    insts: list[Inst] = _delegations(ctx) + _attach_additive(ctx)
     callers = _callers(ctx)
     for f in prog.all_funcs():
         facts = an.of(f)
